@@ -177,6 +177,41 @@ theorem follow_links_create {l : Loader} (hl : Consistent l) (fromF : Frag)
   simp only [List.append_nil, followWords] at this
   simpa using this
 
+/-- **Editing a list attribute after a move.** Whatever stood in the attribute before — for example
+`#id` links written while a member was still in the referrer's file — the text `insert` writes holds, at
+every position, the link `create_link` gives for the fragment that holds that member NOW (`#id` iff it is
+the referrer's own fragment, by `createLink_hash_iff_same`), one link per member of the new list, and the
+attribute reads back as exactly the new list in order. -/
+theorem insert_links_current {l : Loader} (hl : Consistent l) (fromF : Frag)
+    (members : List (Frag × El)) (index : Nat) (value : Frag × El) (ss : List Str) (ign : Bool)
+    (hall : ∀ p ∈ value :: members, p.1 ∈ l.trees ∧ p.2 ∈ p.1.elems ∧ WFEl p.1.kind p.2)
+    (h : attrInsert fromF members index value = .ok ss) :
+    let new := members.take index ++ value :: members.drop index
+    (ss.length = new.length ∧ ∀ (k : Nat) (h1 : k < new.length) (h2 : k < ss.length),
+        createLink fromF new[k].1 new[k].2 = .ok ss[k]) ∧
+      followLinks l (joinSpace ss) ign =
+        .ok ((members.take index ++ value :: members.drop index).map (·.2)) := by
+  refine ⟨setLinks_pointwise fromF _ ss h, follow_links_create hl fromF _ ss ign ?_ h⟩
+  intro p hp
+  apply hall
+  rcases List.mem_append.mp hp with hp | hp
+  · exact List.mem_cons_of_mem _ (List.mem_of_mem_take hp)
+  · rcases List.mem_cons.mp hp with rfl | hp
+    · exact List.mem_cons_self
+    · exact List.mem_cons_of_mem _ (List.mem_of_mem_drop hp)
+
+/-- The same for the removal of a member: the remaining members' links are all created anew. -/
+theorem delete_links_current {l : Loader} (hl : Consistent l) (fromF : Frag)
+    (members : List (Frag × El)) (index : Nat) (ss : List Str) (ign : Bool)
+    (hall : ∀ p ∈ members, p.1 ∈ l.trees ∧ p.2 ∈ p.1.elems ∧ WFEl p.1.kind p.2)
+    (h : attrDelete fromF members index = .ok ss) :
+    let new := members.eraseIdx index
+    (ss.length = new.length ∧ ∀ (k : Nat) (h1 : k < new.length) (h2 : k < ss.length),
+        createLink fromF new[k].1 new[k].2 = .ok ss[k]) ∧
+      followLinks l (joinSpace ss) ign = .ok ((members.eraseIdx index).map (·.2)) :=
+  ⟨setLinks_pointwise fromF _ ss h,
+   follow_links_create hl fromF _ ss ign (fun p hp => hall p (List.mem_of_mem_eraseIdx hp)) h⟩
+
 /-! ## Non-vacuity: a concrete loader with a nested, oddly named fragment and a visual file -/
 
 def mainF : Frag := ⟨["\x00".toList, "My Model.capella".toList],
@@ -211,6 +246,14 @@ example : loadRef fragF.path "../../Lib%201/sub/Lib.capella".toList = libF.path 
 example : followLinks ldr
     "#a-2 org.x.la:LogicalArchitecture fr%C3%A4gments/100%25%20LA%231.capellafragment#b-1 #nope".toList
     true = .ok [mainF.elems[1], fragF.elems[0]] := by decide +kernel
+-- a history: `a-1` was referenced as `#a-1` from `a-2` while both were in the main file; it now lives in the
+-- fragment (`fragF2`); appending `c-1` writes the cross-file form for `a-1`, not the stale `#a-1`
+def fragF2 : Frag := ⟨fragF.path, fragF.elems ++ [mainF.elems[0]]⟩
+example : attrInsert mainF [(fragF2, mainF.elems[0])] 1 (libF, libF.elems[0]) =
+    .ok ["org.x:Root fr%C3%A4gments/100%25%20LA%231.capellafragment#a-1".toList,
+         "org.x:Library ../Lib%201/sub/Lib.capella#c-1".toList] := by decide +kernel
+example : attrDelete fragF2 [(libF, libF.elems[0]), (fragF2, mainF.elems[0])] 0 = .ok ["#a-1".toList] := by
+  decide +kernel
 example : Clean fragF.path ∧ ¬ mainF.path <+: fragF.path := by
   refine ⟨?_, by decide⟩
   intro c hc
